@@ -58,6 +58,11 @@ REQUIRED_THEOREMS = [
     "source_flag_faces_rotation_quantised", "source_flag_faces_index_is_scaled_holonomy", "source_flag_faces_index_multiple_of_quantum",
     # round 4, over the reals: index total = 4 chi from C07's Gauss-Bonnet + telescoping with the polarity read from the source
     "contribR_sum", "holonomy_total", "index_total_four_chi", "index_total_four_chi_closed",
+    # round 5: vertex-based _initialize_variables and flag_singularities as whole bodies; adjacency-form sum refines the edge-list model
+    "bridge_init_variables_vertices", "source_init_vertices_constraint_unit", "source_init_vertices_free_untouched",
+    "bridge_flag_vertices_edge_rot", "bridge_flag_vertices_singuls", "source_flag_vertices_dict_is_rotD", "source_flag_vertices_face_angle",
+    "source_flag_vertices_flag_is_sign", "source_flag_vertices_independent_of_history",
+    "source_flag_faces_holonomy_refines", "source_flag_faces_index_total",
 ]
 TRUSTED = [
     "Lean 4.33.0 kernel; axioms ⊆ {propext, Classical.choice, Quot.sound}",
@@ -88,6 +93,8 @@ ASSUMPTIONS = [
     "(1e-8; 1e-3 for float32, whose geometric tolerances are widened to single precision); with n_smooth > 0 both runs use a prescribed attach weight",
     "partial: harmonic-extension, numbering-independence and index-sum = scale*chi clauses are established on the inputs of this run only",
     "cad_correction (OSQP-modified transport) and singularity_indices (trivial connection classes) are outside the quantifier and not exercised",
+    "moved-mesh history: only the VERTEX-based field is required to ignore a `cotan` attribute computed for an earlier geometry (its unchanged initialize() "
+    "refreshes it); the face-based field reads the mesh's `cotan` cache as it is (caller's responsibility, DESIGN 10.9) and is not exercised on moved meshes",
 ]
 RULE = ("triangulated oriented manifold surfaces from 14 families (height-field / planar grids, Delaunay disks, annuli, grids with holes, "
         "jittered and symmetric spheres, tori, folded grids and cubes/open boxes with sharp creases, strips, 1-2 triangle meshes), random face "
@@ -96,7 +103,10 @@ RULE = ("triangulated oriented manifold surfaces from 14 families (height-field 
         "(linear solve with >= 1 free element, or eigen-solve) and, for faces, singularities were flagged. Round 3 adds history families "
         "(run() twice + flag twice; initialize() then the callable; two fields of different order / element / features one after the other on "
         "ONE mesh (systematically: features on then off and off then on across a sharp crease, order 4 then 6, both elements, optionally re-using the first field's detector or passing two explicit detectors); another complete field on ANOTHER mesh between construction and run of the field under test (state shared between instances); an explicitly passed equivalent FeatureEdgeDetector) and representation "
-        "families (integer-coordinate grids handed in as int64 arrays, Vec of python ints, int lists, float32 arrays), n_smooth in {0,1,3,10}.")
+        "families (integer-coordinate grids handed in as int64 arrays, Vec of python ints, int lists, float32 arrays), n_smooth in {0,1,3,10}. "
+        "Round 5 adds the moved-mesh history (vertex-based field only): a scalar Laplacian / cotangents / the cotan edge diagonal is "
+        "computed on the mesh (each leaves only the `cotan` corner attribute, which the unchanged vertex-based initialize() refreshes), the mesh is deformed in place with transform.scale_xyz (unequal factors), then the field is computed and compared by value with "
+        "the field on a fresh mesh of the same coordinates.")
 
 
 # ------------------------------------------------------------------------------------------------
@@ -136,9 +146,9 @@ SOURCE_MAP = {
     # ---- vertex2d.py
     _FF + "vertex2d.py::_BaseFrameField2DVertices.__init__": "oracle-only",
     _FF + "vertex2d.py::_BaseFrameField2DVertices._initialize_attributes": "oracle-only",
-    _FF + "vertex2d.py::_BaseFrameField2DVertices._initialize_variables": "translated: fragments (branch condition, exponent, cancellation guard, feature threshold; bridge_vertex_init); loop structure modelled (FFV.initVertsFull)",
+    _FF + "vertex2d.py::_BaseFrameField2DVertices._initialize_variables": "translated: imperative (C18S.initVariablesVerts, whole body; bridge_init_variables_vertices to FFV.initVertsFull under the contract of abs)",
     _FF + "vertex2d.py::_BaseFrameField2DVertices._compute_attach_weight": "translated: fragments (same constants as the face-based one; bridge_attach_weight)",
-    _FF + "vertex2d.py::_BaseFrameField2DVertices.flag_singularities": "translated: fragments (matching arguments, store signs, half-edge list, curvature sign, threshold, clear; bridge_vertex_candidates, bridge_vertex_flag_structure); loops modelled (FFV)",
+    _FF + "vertex2d.py::_BaseFrameField2DVertices.flag_singularities": "translated: imperative (C18S.flagEdgeRotVerts / flagSingulsVerts, whole body; bridge_flag_vertices_edge_rot, bridge_flag_vertices_singuls, source_flag_vertices_dict_is_rotD)",
     _FF + "vertex2d.py::_BaseFrameField2DVertices.export_as_mesh": "out-of-scope: visualisation export, not an observable of the property",
     _FF + "vertex2d.py::FrameField2DVertices.__init__": "oracle-only",
     _FF + "vertex2d.py::FrameField2DVertices.initialize": "translated: imperative (C18S.initializeVerts; bridge_initialize_vertices)",
@@ -243,7 +253,8 @@ def cases(rng, tier):
             yield case
     # ---- round 3: histories on one object / one mesh, input representations, custom feature detectors
     nh = 30 if tier == "quick" else 130
-    kinds = ["two-fields", "repr", "rerun", "two-fields", "call", "interleaved", "two-fields", "custom-features", "two-fields", "repr"]
+    kinds = ["two-fields", "repr", "rerun", "two-fields", "call", "interleaved", "two-fields", "custom-features", "two-fields", "repr", "moved"]
+    nh += nh // 10
     for k in range(nh):
         kind = kinds[k % len(kinds)]
         creased = False
@@ -286,6 +297,19 @@ def cases(rng, tier):
             other = _config(rng, fam2, st2); other["n_smooth"] = rng.choice([0, 1])
             if rng.random() < 0.7: other["elem"] = case["elem"]
             case["hist"] = {"kind": "interleaved", "other": dict(other, V=V2, F=F2, fam=fam2)}
+        elif kind == "moved":
+            # round 5: the mesh carried a conventional attribute computed for an EARLIER geometry (a scalar Laplacian / cotangents were
+            # asked for), was then deformed in place with the documented transform, and only then the (vertex-based) field is computed.
+            # Only the vertex-based field: its unchanged initialize() refreshes what optimize() reads from the mesh; the face-based one
+            # reads the mesh's caches as they are (caller's responsibility, DESIGN 10.9).
+            nm = sum(1 for q in range(k) if kinds[q % len(kinds)] == "moved")
+            case["elem"] = "vertices"
+            case["cotan"] = True
+            case["n_smooth"] = [0, 0, 1][nm % 3]
+            case["hist"] = {"kind": "moved", "pre": ["laplacian", "cotangent", "edge-diagonal"][nm % 3],
+                            "scale": [[1.0, 3.0, 1.0], [2.0, 1.0, 0.5], [0.5, 1.0, 2.0], [1.0, 1.0, 2.5]][(nm // 3 + nm) % 4]}
+            # (a complete face-based field before the move is NOT part of this family: it leaves `area`, `angles`, ... attributes that the unchanged
+            # vertex-based code reads as they are - area_weight_matrix -, i.e. the caller's responsibility by the caching policy)
         else:
             if creased and rng.random() < 0.6: case["features"] = True
             case["hist"] = {"kind": kind}
@@ -350,6 +374,11 @@ def search_on_break(rng, broken, mismatches):
                                        "first": {"elem": elem, "order": o1, "features": fam in ("fold", "box"), "n_smooth": 0, "cotan": True, "seed": 5}})
                 yield dict(base, hist={"kind": "rerun"})
                 yield dict(base, hist={"kind": "call"})
+    for fam in ["grid", "holes", "delaunay"]:
+        V, F, st = GG.make_surface(rng, fam)
+        for pre in ("laplacian", "cotangent"):
+            yield {"V": V, "F": F, "fam": fam, "elem": "vertices", "order": 4, "features": False, "n_smooth": 0, "cotan": True, "seed": 5,
+                   "hist": {"kind": "moved", "pre": pre, "scale": [1.0, 3.0, 1.0]}}
     for _ in range(6):
         V, F, st = _int_surface(rng)
         for b in ("int64", "pyint", "f32"):
@@ -1241,6 +1270,25 @@ def _history(case, r):
         r2 = _run_once(case, V, F, alpha=alpha, mesh=m, detector=det)
         if r2.err: report("raises", str(r2.err), "custom-features"); return out
         for what, det_ in _cmp_snap(_snap(r2, elem), sref, tol): report(what, det_, "custom-features")
+    elif kind == "moved":
+        import mouette as M
+        sc = h["scale"]
+        V0 = [[v[0] / sc[0], v[1] / sc[1], v[2] / sc[2]] for v in V]
+        m = _build(V0, F)
+        pre = h["pre"]
+        if pre == "laplacian": M.operators.laplacian(m)
+        elif pre == "cotangent": M.attributes.cotangent(m)
+        elif pre == "edge-diagonal": M.operators.cotan_edge_diagonal(m)
+        elif pre == "face-field":
+            r0 = _run_once(dict(case, elem="faces", n_smooth=0), V0, F, mesh=m)
+            if r0.err: return out
+        M.transform.scale_xyz(m, float(sc[0]), float(sc[1]), float(sc[2]))
+        Vm = [[float(c) for c in m.vertices[i]] for i in range(len(V))]
+        refm = _run_once(case, Vm, F, alpha=alpha, build=None)          # same coordinates, mesh without history
+        if refm.err: return out
+        r2 = _run_once(case, Vm, F, alpha=alpha, mesh=m)
+        if r2.err: report("raises", str(r2.err), "moved-mesh/" + pre); return out
+        for what, det_ in _cmp_snap(_snap(r2, elem), _snap(refm, elem), tol): report(what, det_, "moved-mesh/" + pre)
     elif kind == "repr":
         b = case.get("build")
         r2 = r if alpha is None else _run_once(case, V, F, alpha=alpha)
@@ -1440,7 +1488,11 @@ MANIFEST = {
                    "final normalisation; the result is normalize(y) (unit wherever |y_i| > 1e-10); with n_smooth = 0 and an EXACT linear solve (hypothesis "
                    "SolvedExactly: A x = b for the system the code builds) y is the harmonic extension (L_II y_I = -L_IB y_B, row by row) of the constraints; the "
                    "harmonic equation is covariant under renumbering and, given uniqueness, the renumbered solve returns the renumbered field; over the reals "
-                   "(Props/C18Real.lean) the scaled holonomy sums add up to 4*chi on every oriented triangulated manifold from C07's Gauss-Bonnet."),
+                   "(Props/C18Real.lean) the scaled holonomy sums add up to 4*chi on every oriented triangulated manifold from C07's Gauss-Bonnet. "
+                   "Round 5: the vertex-based _initialize_variables (both branches, cancellation guards, feature normalisation) and flag_singularities (dict of "
+                   "directed rotations, edge attribute, face loop) are translated as whole bodies and bridged to FFV.initVertsFull / edgeRotV / rotD (the dict read "
+                   "equals rotD on a well-formed edge list); the adjacency-form holonomy sum of the face-based flag_singularities is proved equal to the edge-list "
+                   "vertexAngle given the vertex_to_edges contract (a permutation of the incident edges), so the telescoping / 4*chi theorems apply to the sums the source stores."),
     "level_note": ("Trusted: Lean kernel + propext/Classical.choice/Quot.sound; the ast translator for 4 constant sites; the hand-written "
                    "model, tied to the code by feeding it the implementation's own per-edge transports / weights / phases / solver output "
                    "and comparing assembled matrix, partition, constraints, normalised field, edge rotations and vertex sums at 1e-9; "
